@@ -242,3 +242,75 @@ Proof.
              capacity okd limit0 evs s fuel s' a x o' out w E H Ea Hs Hv).
 Qed.
 Print Assumptions C14_full_stack_batched_pending_registers_and_terminates.
+
+(* ---------------- chains, BATCHED flavour (ChainPollB.v) ----------------
+   The batched loop over an arbitrary inner stream (gpoll_b: a whole batch through flat_map_diffs,
+   no ready buffer, "nothing produced => poll again") and stacks of any height: the same statements
+   as for the unbatched flavour above. *)
+From EB Require Import ChainPollB ChainPollBFacts.
+
+Theorem C14_chain_batched_pending_registers_everywhere :
+  forall (A : Type) (depth fuel : nat) (c c' : chain_b (A:=A)) (tr : ltrace),
+    stages_ok_b (fst c) ->
+    chain_poll_b depth fuel c = Ok (c', Pending, tr) ->
+    all_registered_b c' tr.
+Proof. exact chain_b_pending_registers_everywhere. Qed.
+Print Assumptions C14_chain_batched_pending_registers_everywhere.
+
+Theorem C14_chain_batched_quiet_stays_pending :
+  forall (A : Type) (depth fuel : nat) (c : chain_b (A:=A)),
+    quiet_b c -> length (fst c) <= depth -> 1 <= fuel ->
+    exists tr, chain_poll_b depth fuel c = Ok (c, Pending, tr).
+Proof. exact chain_b_quiet_stays_pending. Qed.
+Print Assumptions C14_chain_batched_quiet_stays_pending.
+
+Theorem C14_generic_batched_loop_is_scripted_loop :
+  forall (I B St : Type) (on_diff : St -> I -> outcome (St * list (diff B)))
+         (on_param : St -> nat -> St * option (list (diff B))) (hp : bool)
+         (st : St) (qi : list (list I)) (iend : bool) (qp : list nat) (pend : bool),
+    gpoll_b on_diff on_param hp 1 queue_inner_b (S (length qi)) st (qi, iend) qp pend =
+    match poll_b on_diff on_param hp st qi iend qp pend with
+    | Ok (st', qi', qp', r, tr) => Ok (st', (qi', iend), qp', r, map conv_src tr)
+    | Panic => Panic
+    end.
+Proof. exact gpoll_b_queue_is_poll_b. Qed.
+Print Assumptions C14_generic_batched_loop_is_scripted_loop.
+
+Theorem C14_chain_batched_fuel_irrelevant :
+  forall (A : Type) (depth depth' fuel fuel' : nat) (c : chain_b (A:=A)) res,
+    depth <= depth' -> fuel <= fuel' ->
+    chain_poll_b depth fuel c = Ok res -> chain_poll_b depth' fuel' c = Ok res.
+Proof. exact chain_poll_b_fuel_mono. Qed.
+Print Assumptions C14_chain_batched_fuel_irrelevant.
+
+(* ---------------- the full-stack loops ARE the scripted loops (FullStackTie.v) ----------------
+   Over scripted queues the loops of FullStack.v / FullStackB.v (both inputs arbitrary state
+   machines) compute exactly PollLoop.poll_u / poll_b - the two functions the correspondence check
+   compares call by call with the five poll_next implementations. *)
+From EB Require Import ChainPoll FullStackTie.
+
+Theorem C14_full_stack_loop_is_scripted_loop :
+  forall (I B St : Type) (on_diff : St -> I -> outcome (St * list (diff B)))
+         (on_param : St -> nat -> St * option (list (diff B)))
+         (s : ustate (B:=B) (St:=St)) qi iend qp pend fuel,
+    length qi + length qp + 2 <= fuel ->
+    fpoll on_diff on_param qinner queue_param fuel s (qi, iend) (qp, pend) =
+    match poll_u on_diff on_param true s qi iend qp pend with
+    | Ok (s', qi', qp', r, _) => ROk (s', (qi', iend), (qp', pend), r)
+    | Panic => RPanic
+    end.
+Proof. exact fpoll_queue_is_poll_u. Qed.
+Print Assumptions C14_full_stack_loop_is_scripted_loop.
+
+Theorem C14_full_stack_batched_loop_is_scripted_loop :
+  forall (I B St : Type) (on_diff : St -> I -> outcome (St * list (diff B)))
+         (on_param : St -> nat -> St * option (list (diff B)))
+         (st : St) qi iend qp pend fuel,
+    length qi + length qp + 2 <= fuel ->
+    floop_b on_diff on_param qinner_b queue_param fuel st (qi, iend) (qp, pend) =
+    match poll_b on_diff on_param true st qi iend qp pend with
+    | Ok (st', qi', qp', r, _) => ROk (st', (qi', iend), (qp', pend), r)
+    | Panic => RPanic
+    end.
+Proof. exact floop_b_queue_is_poll_b. Qed.
+Print Assumptions C14_full_stack_batched_loop_is_scripted_loop.
